@@ -1,4 +1,6 @@
 import CnlDriver
+import Std.Data.HashMap
+import Std.Data.HashSet
 /-!
 Line-protocol driver.  Reads `<table> <tokens…> => <implementation result>` lines, evaluates the
 model (and, where the table has one, the spec oracle on the implementation's result) and prints
@@ -23,11 +25,13 @@ structure DAcc where
   specFail : Nat := 0
   specNA : Nat := 0
   nontrivial : Nat := 0
-  hist : List (String × Nat) := []
+  hist : Std.HashMap String Nat := {}
+  seen : Std.HashSet UInt64 := {}
+  samples : Nat := 0
   printed : Nat := 0
 
-def bump (h : List (String × Nat)) (k : String) : List (String × Nat) :=
-  if h.any (·.1 == k) then h.map (fun p => if p.1 == k then (p.1, p.2 + 1) else p) else (k, 1) :: h
+def bump (h : Std.HashMap String Nat) (k : String) : Std.HashMap String Nat :=
+  h.insert k (h.getD k 0 + 1)
 
 partial def loop (h : IO.FS.Stream) (echo : Bool) (a : DAcc) : IO DAcc := do
   let line ← h.getLine
@@ -57,7 +61,13 @@ partial def loop (h : IO.FS.Stream) (echo : Bool) (a : DAcc) : IO DAcc := do
           let c := if v.cls.isEmpty then "UNLISTED" else v.cls
           if a.printed < 2000 then IO.println s!"SPECFAIL {c} {line} || model={v.model}"
           a := { a with specFail := a.specFail + 1, printed := a.printed + 1 }
-        if v.nontrivial then a := { a with nontrivial := a.nontrivial + 1 }
+        let hsh := hash lhs
+        if v.nontrivial && !a.seen.contains hsh then
+          a := { a with nontrivial := a.nontrivial + 1, seen := a.seen.insert hsh }
+          -- a few actual cases for the evidence file, spread over the stream
+          if a.samples < 6 && a.nontrivial % 7919 == 1 then
+            IO.println s!"SAMPLE {line} || model={v.model}"
+            a := { a with samples := a.samples + 1 }
         let key := table ++ ":" ++ v.branch
         loop h echo { a with hist := bump a.hist key }
     | [] => loop h echo { a with total := a.total + 1, bad := a.bad + 1 }
@@ -68,6 +78,6 @@ partial def loop (h : IO.FS.Stream) (echo : Bool) (a : DAcc) : IO DAcc := do
 def main (args : List String) : IO UInt32 := do
   let echo := args.contains "--echo"
   let a ← loop (← IO.getStdin) echo {}
-  for (k, n) in a.hist.reverse do IO.println s!"STAT {k} {n}"
+  for (k, n) in a.hist.toList do IO.println s!"STAT {k} {n}"
   IO.println s!"TOTAL lines={a.total} agree={a.agree} mismatch={a.mismatch} bad={a.bad} spec_ok={a.specOk} spec_fail={a.specFail} spec_na={a.specNA} nontrivial={a.nontrivial}"
   return 0
